@@ -192,5 +192,5 @@ def run_shard(ctx):
                   % (1000 if quick else 3000, len(cases)))
     ctx.drive("generated", gen.run_case(names=["SequOOL"], n_range=(10, 600) if quick else (10, 5000), script_prob=0.25,
                                         full_T_prob=0.6, T_min=5,
-                                        laws=["ties", "nonpos_ties", "noise", "peak", "negative", "const", "large", "bump"]),
+                                        laws=["ties", "nonpos_ties", "noise", "peak", "negative", "const", "large", "bump", "neartie", "neartie"]),
               check_case, ctx.budget(10000, 60000))
